@@ -4,6 +4,7 @@ import (
 	"bytes"
 	"crypto/elliptic"
 	"crypto/x509"
+	"crypto/x509/pkix"
 	"encoding/asn1"
 	"fmt"
 	"sync"
@@ -31,6 +32,8 @@ import (
 type extraCerts struct {
 	isd2Sens, asCert, caCert, shortReg, lateReg, bothUsages *pki.Cert
 	dupSerialSens, dupSerialReg                             *pki.Cert // same issuer (= subject) and serial
+	noIA                                                    map[string]*pki.Cert // "<class>/<i>": certificates without ISD-AS attribute
+	noIAShortSens                                           *pki.Cert
 }
 
 var (
@@ -62,6 +65,20 @@ func extra() *extraCerts {
 		name := pki.Subject(ia, "same name")
 		e.dupSerialSens = must(pki.NewCert(cppki.Sensitive, name, pki.Key(elliptic.P256(), 3806), p.nb, p.na, nil))
 		e.dupSerialReg = must(pki.NewCert(cppki.Regular, name, pki.Key(elliptic.P256(), 3807), p.nb, p.na, nil, func(t *x509.Certificate) { t.SerialNumber = e.dupSerialSens.X.SerialNumber }))
+		e.noIA = map[string]*pki.Cert{}
+		k := 3820
+		for _, typ := range []cppki.CertType{cppki.Sensitive, cppki.Regular} {
+			for i := 0; i < 3; i++ {
+				e.noIA[fmt.Sprintf("%s/%d", typ, i)] = must(pki.NewCert(typ, pkix.Name{CommonName: fmt.Sprintf("no ia %s %d", typ, i)}, pki.Key(elliptic.P256(), k), p.nb, p.na, nil))
+				k++
+			}
+		}
+		// root certificates must name an ISD-AS: one per sampled ISD
+		for _, isd := range []int{1, 2, 4095, 4096, 65534, 65535} {
+			e.noIA[fmt.Sprintf("root/%d", isd)] = must(pki.NewCert(cppki.Root, pki.Subject(addr.MustIAFrom(addr.ISD(isd), p.ases[0]), fmt.Sprintf("root of isd %d", isd)), pki.Key(elliptic.P256(), k), p.nb, p.na, nil))
+			k++
+		}
+		e.noIAShortSens = must(pki.NewCert(cppki.Sensitive, pkix.Name{CommonName: "no ia short sensitive"}, pki.Key(elliptic.P256(), k), p.nb, p.na.Add(-300*24*time.Hour), nil))
 		extras = e
 	})
 	return extras
@@ -72,9 +89,9 @@ func TestC33(t *testing.T) {
 		"with at most one violation of one rule of the statement (24 kinds). Oracle: violation => Validate and Encode fail; none => Encode, DecodeTRC yields an equal TRC, re-encoding yields the same bytes. Non-trivial: a payload with a violation, or an update with votes and grace period.")
 	defer rec.Flush(t)
 	rec.Assume("certificate classification (ValidateCert) is the production one; only class membership violations visible at TRC level are generated here (certificate-level rules are C34's)")
-	viol := []string{"none", "none", "none", "version_0", "version_2", "isd_0", "base_0", "base_gt_serial", "validity_empty", "validity_reversed", "base_with_grace", "base_with_votes", "quorum_0", "quorum_256",
+	viol := []string{"none", "none", "none", "version_0", "version_2", "isd_0", "base_0", "base_gt_serial", "validity_empty", "validity_reversed", "base_with_grace", "base_with_votes", "quorum_0", "quorum_negative", "quorum_256",
 		"quorum_gt_sensitive", "quorum_gt_regular", "cores_empty", "auth_empty", "core_wildcard", "auth_wildcard", "core_duplicate", "auth_duplicate", "cert_as", "cert_ca", "cert_both_usages", "cert_other_isd",
-		"cert_ends_early", "cert_starts_late", "dup_issuer_serial", "dup_subject_in_class", "no_certificates"}
+		"cert_ends_early", "cert_without_ia_ends_early", "cert_starts_late", "dup_issuer_serial", "dup_subject_in_class", "no_certificates"}
 	req := []string{"valid_base", "valid_update", "roundtrip"}
 	for _, v := range viol[3:] {
 		req = append(req, "violation_"+v)
@@ -116,6 +133,19 @@ func TestC33(t *testing.T) {
 				trc.Votes = append(trc.Votes, rapid.IntRange(0, 12).Draw(rt, "vote"))
 			}
 		}
+		if rapid.IntRange(0, 3).Draw(rt, "anyISD") == 0 {
+			// certificates without ISD-AS attribute fit a TRC of any ISD, the boundary values included
+			trc.ID.ISD = addr.ISD(rapid.SampledFrom([]int{1, 2, 4095, 4096, 65534, 65535}).Draw(rt, "isd"))
+			trc.Certificates = nil
+			for _, typ := range []cppki.CertType{cppki.Sensitive, cppki.Regular} {
+				for i := 0; i < 3; i++ {
+					trc.Certificates = append(trc.Certificates, e.noIA[fmt.Sprintf("%s/%d", typ, i)].X)
+				}
+			}
+			trc.Certificates = append(trc.Certificates, e.noIA[fmt.Sprintf("root/%d", trc.ID.ISD)].X)
+			ns, nr, nroot = 3, 3, 1
+			trc.Quorum = rapid.IntRange(1, 3).Draw(rt, "quorumAnyISD")
+		}
 		v := rapid.SampledFrom(viol).Draw(rt, "violation")
 		replaceClass := func(typ cppki.CertType, with *x509.Certificate) {
 			for i, c := range trc.Certificates {
@@ -146,6 +176,8 @@ func TestC33(t *testing.T) {
 			trc.ID.Serial, trc.Votes, trc.GracePeriod = trc.ID.Base, []int{0}, 0
 		case "quorum_0":
 			trc.Quorum = 0
+		case "quorum_negative":
+			trc.Quorum = -rapid.IntRange(1, 300).Draw(rt, "negQuorum")
 		case "quorum_256":
 			trc.Quorum = 256
 		case "quorum_gt_sensitive":
@@ -200,11 +232,18 @@ func TestC33(t *testing.T) {
 		case "cert_both_usages":
 			trc.Certificates = append(trc.Certificates, e.bothUsages.X)
 		case "cert_other_isd":
-			trc.Certificates = append(trc.Certificates, e.isd2Sens.X)
+			if trc.ID.ISD == 2 {
+				trc.Certificates = append(trc.Certificates, p.get(cppki.Sensitive, 5, "A").X) // an ISD 1 certificate
+			} else {
+				trc.Certificates = append(trc.Certificates, e.isd2Sens.X)
+			}
 		case "cert_ends_early":
 			// the extra regular voter's certificate ends before the TRC does
 			trc.Validity.NotAfter = p.na.Add(-time.Hour)
 			trc.Certificates = append(trc.Certificates, e.shortReg.X)
+		case "cert_without_ia_ends_early":
+			trc.Validity.NotAfter = p.na.Add(-time.Hour)
+			trc.Certificates = append(trc.Certificates, e.noIAShortSens.X)
 		case "cert_starts_late":
 			trc.Certificates = append(trc.Certificates, e.lateReg.X)
 		case "dup_issuer_serial":
@@ -214,6 +253,15 @@ func TestC33(t *testing.T) {
 			for _, c := range trc.Certificates {
 				if ct, _ := cppki.ValidateCert(c); ct == typ {
 					o := p.owner(c)
+					if o == nil {
+						// not from the A/B pool: a second certificate with the same subject
+						twin, err := pki.NewCert(typ, c.Subject, pki.Key(elliptic.P256(), 3899), c.NotBefore, c.NotAfter, nil)
+						if err != nil {
+							rt.Fatalf("harness: %v", err)
+						}
+						trc.Certificates = append(trc.Certificates, twin.X)
+						break
+					}
 					for a := 0; a < 6; a++ {
 						for _, ver := range []string{"A", "B"} {
 							if x := p.get(typ, a, ver); x.X.Subject.String() == o.X.Subject.String() && !x.X.Equal(o.X) {
